@@ -516,6 +516,7 @@ func modeEval(args []string) {
 	in := fs.String("in", "", "ndjson of cases from Bip39Mut")
 	prefix := fs.String("out-prefix", "", "trace shards are written to <prefix><k>.ndjson")
 	shards := fs.Int("shards", 1, "")
+	maxLines := fs.Int("max-lines", 0, "upper bound on the lines of one shard (more shards are written if needed)")
 	seed := fs.Int64("seed", 1, "")
 	passes := fs.Int("passes", 3, "passphrases per unmutated case")
 	fs.Parse(args)
@@ -592,6 +593,9 @@ func modeEval(args []string) {
 		*shards = 1
 	}
 	per := (len(lines) + *shards - 1) / *shards
+	if *maxLines > 0 && per > *maxLines {
+		per = *maxLines
+	}
 	if per == 0 {
 		per = 1
 	}
